@@ -162,7 +162,7 @@ func genMeta(r *Rand, o *TextOpts) []PairT {
 		if o.Exotic && r.Chance(1, 8) {
 			k = Pick(r, []string{"foo", "x y", "TXT", "k;", "1", "[", "a/b"})
 		}
-		if used[k] {
+		if used[k] && !(o.Exotic && r.Chance(1, 2)) {
 			continue
 		}
 		used[k] = true
